@@ -163,6 +163,8 @@ impl World for AgentWorld {
         out.count("fault.peer_close_read", h.sent.iter().filter(|s| matches!(s.op, scenario::Op::CloseRead)).count() as u64);
         out.count("fault.peer_close_write", h.sent.iter().filter(|s| matches!(s.op, scenario::Op::CloseWrite)).count() as u64);
         out.count("fault.restart_read_error", rec.restart_read_fault_fired as u64);
+        out.count("fault.remote_reattached_same_id", h.marks.iter().filter(|(_, m)| m.contains(" reattaches as ")).count() as u64);
+        out.count("probe.remote_never_reattached", h.marks.iter().filter(|(_, m)| m.contains("never-reattached")).count() as u64);
         out.count("fault.peer_torn_frame", h.sent.iter().filter(|s| matches!(s.op, scenario::Op::TornCmd { .. })).count() as u64);
         out.count("fault.bad_command_body", h.sent.iter().filter(|s| s.ok && matches!(s.op, scenario::Op::BadCmd { .. })).count() as u64);
         out.count("fault.store_fault_fired", rec.store_fault_fired as u64);
